@@ -217,6 +217,42 @@ class _Inliner(ast.NodeTransformer):
         return node
 
 
+class _ExprInliner(ast.NodeTransformer):
+    """N1b: a call of an unknown private helper whose whole body is `return <expression>` is replaced by that expression (arguments
+    substituted; only when every argument is a name, attribute chain or constant, so that nothing is evaluated twice or in another
+    order).  This covers helpers used inside larger expressions (e.g. a one-line predicate used in an `if not helper(x, y):` test)."""
+
+    def __init__(self, helpers):
+        self.helpers = {k: h for k, h in helpers.items() if len(_strip_doc(h.body)) == 1 and isinstance(_strip_doc(h.body)[0], ast.Return)
+                        and _strip_doc(h.body)[0].value is not None}
+        self.count = 0
+        self.used = set()
+
+    def visit_Call(self, c):
+        self.generic_visit(c)
+        if isinstance(c.func, ast.Name) and c.func.id in self.helpers and not c.keywords and all(_simple_arg(a) for a in c.args):
+            h = self.helpers[c.func.id]
+            params = [p.arg for p in h.args.args]
+            comp_vars = {n.id for g in ast.walk(h) if isinstance(g, ast.comprehension) for n in ast.walk(g.target) if isinstance(n, ast.Name)}
+            arg_names = {n.id for a in c.args for n in ast.walk(a) if isinstance(n, ast.Name)}
+            if len(params) != len(c.args) or (_bound_names(h) - comp_vars) or (comp_vars & (arg_names | set(params))):
+                return c
+            sub = dict(zip(params, c.args))
+
+            class S(ast.NodeTransformer):
+                def visit_Name(self, n):
+                    return copy.deepcopy(sub[n.id]) if n.id in sub and isinstance(n.ctx, ast.Load) else n
+            body = _strip_doc(h.body)[0].value
+            # comprehension variables of the helper are bound names: _bound_names() found none, so the expression has no binders
+            new = S().visit(copy.deepcopy(body))
+            for n in ast.walk(new):
+                ast.copy_location(n, c)
+            self.count += 1
+            self.used.add(h.name)
+            return new
+        return c
+
+
 class _Unroller(ast.NodeTransformer):
     """N2: `for <targets> in <literal tuple/list with at most 12 rows>` is replaced by one copy of its body per row, with the loop
     variables replaced by the row's element expressions.  Applied only when the loop has no else/break/continue, the loop variables
@@ -245,9 +281,15 @@ class _Unroller(ast.NodeTransformer):
 
     def _unroll(self, node):
         lit = self._literal(node.iter)
-        if lit is None or node.orelse:
+        if lit is None:
             return None
-        if any(isinstance(x, (ast.Break, ast.Continue)) for b in node.body for x in ast.walk(b)):
+        # search form: `for row in TABLE: if <cond(row)>: <stmts>; break` (with optional for-else) is an if/elif chain
+        search = len(node.body) == 1 and isinstance(node.body[0], ast.If) and not node.body[0].orelse and node.body[0].body \
+            and isinstance(node.body[0].body[-1], ast.Break) \
+            and not any(isinstance(x, (ast.Break, ast.Continue)) for b in node.body[0].body[:-1] for x in ast.walk(b))
+        if node.orelse and not search:
+            return None
+        if not search and any(isinstance(x, (ast.Break, ast.Continue)) for b in node.body for x in ast.walk(b)):
             return None
         names = []
         if isinstance(node.target, ast.Name):
@@ -268,6 +310,7 @@ class _Unroller(ast.NodeTransformer):
         if any(isinstance(x, ast.Starred) for r in lit.elts for x in ast.walk(r)):
             return None
         out = []
+        chain = []
         for r in lit.elts:
             vals = [r] if isinstance(node.target, ast.Name) else list(r.elts)
             sub = dict(zip(names, vals))
@@ -275,8 +318,32 @@ class _Unroller(ast.NodeTransformer):
             class R(ast.NodeTransformer):
                 def visit_Name(self, n):
                     return copy.deepcopy(sub[n.id]) if n.id in sub and isinstance(n.ctx, ast.Load) else n
-            for st in node.body:
-                out.append(R().visit(copy.deepcopy(st)))
+
+                def visit_Call(self, c):
+                    self.generic_visit(c)
+                    # f(x, *(<literal tuple>)) -> f(x, <elements>)
+                    new_args = []
+                    for a in c.args:
+                        if isinstance(a, ast.Starred) and isinstance(a.value, (ast.Tuple, ast.List)):
+                            new_args.extend(a.value.elts)
+                        else:
+                            new_args.append(a)
+                    c.args = new_args
+                    return c
+            if search:
+                it = node.body[0]
+                chain.append((R().visit(copy.deepcopy(it.test)), [R().visit(copy.deepcopy(st)) for st in it.body[:-1]] or [ast.Pass()]))
+            else:
+                for st in node.body:
+                    out.append(R().visit(copy.deepcopy(st)))
+        if search:
+            tail = [copy.deepcopy(st) for st in node.orelse]
+            for test, body in reversed(chain):
+                tail = [ast.If(test=test, body=body, orelse=tail)]
+            out = tail
+            for st in out:
+                for n in ast.walk(st):
+                    ast.copy_location(n, node)
         self.count += 1
         return out
 
@@ -307,12 +374,16 @@ def normalise_module(tree: ast.Module, exported=(), unroll=True):
             break
         info["call_sites"] += inl.count
         info["helpers_inlined"] = sorted(set(info["helpers_inlined"]) | inl.used)
+    helpers = {st.name: st for st in tree.body if isinstance(st, ast.FunctionDef) and _candidate(st, set(exported))}
+    if helpers:
+        ei = _ExprInliner(helpers)
+        ei.visit(tree)
+        info["call_sites"] += ei.count
+        info["helpers_inlined"] = sorted(set(info["helpers_inlined"]) | ei.used)
     info["loops_unrolled"] = 0
     if unroll:
         un = _Unroller()
         un.visit(tree)
         info["loops_unrolled"] = un.count
-    if un.count:
-        info["call_sites"] += 0
     ast.fix_missing_locations(tree)
     return tree, info
